@@ -404,7 +404,27 @@ fn reload_case(i: usize, seed: u64, acc: &mut Acc) {
     if has_context_conflict(&gw) {
       return;
     }
-    history.push(json!({"edits": edits_desc, "reload": edited}));
+    // a caller may name a changed module by any specifier that redirects to
+    // it (the head of a redirect chain it imports)
+    let reload_names: Vec<String> = edited
+      .iter()
+      .map(|u| {
+        let target = url(u);
+        let aliases: Vec<String> = g
+          .redirects
+          .keys()
+          .filter(|k| *g.resolve(k) == target)
+          .map(|k| k.to_string())
+          .collect();
+        if !aliases.is_empty() && rng.coin() {
+          acc.count("reloads_named_by_a_redirecting_specifier");
+          rng.pick(&aliases).clone()
+        } else {
+          u.clone()
+        }
+      })
+      .collect();
+    history.push(json!({"edits": edits_desc, "reload": reload_names}));
     ever_reloaded.extend(edited.iter().cloned());
     acc.eval();
     let before = entry_views(&g);
@@ -412,7 +432,7 @@ fn reload_case(i: usize, seed: u64, acc: &mut Acc) {
     let loader = ScriptedLoader::new(&world);
     let ctx = json!({"world_after_edits": gw.to_json(), "history": history, "kind": format!("{:?}", kind)});
     if let Err(p) = catch(|| {
-      run_build(&mut g, &[], &[], &loader, &cfg, None, Exec::Inline, Some(&edited))
+      run_build(&mut g, &[], &[], &loader, &cfg, None, Exec::Inline, Some(&reload_names))
     }) {
       acc.violation(format!("panic/{}", p.signature()), p.message.clone(), ctx);
       return;
